@@ -1081,6 +1081,11 @@ def parse(
             logger.debug(f"Model with hash '{txt_hash}' ({pymoca_version}) found in cache")
             last_hit, pickled_data = result
 
+            if not isinstance(last_hit, int):
+                # Only a table that is not ours (replaced after this process
+                # checked the layout) hands back anything but an integer
+                raise sqlite3.DatabaseError("Unexpected type of last_hit in model cache")
+
             yesterday = _microseconds_since_epoch(timedelta(days=-1))
 
             if always_update_last_hit or last_hit < yesterday:
